@@ -41,6 +41,13 @@ def explain(*a):
     return False
 
 
+def note(*a):
+    """record a remark for the replay log (returns True so it can be used in `return note(...)`)"""
+    with NoTracing():
+        _EXPLAIN.append(a)
+    return True
+
+
 def force(x, depth=6):
     """Eager plain-list image of a Vyxal value (lists and LazyLists become lists)."""
     if isinstance(x, (list, LazyList, tuple)):
@@ -162,3 +169,33 @@ def witness(*vals):
     with NoTracing():
         if len(_WITNESSES) < 400:
             _WITNESSES.append(vals)
+
+
+# ---- print capture: vy_print's print() goes to a recorder (module global shadows the builtin) --------
+PRINTED = []
+
+
+def _rec_print(*a, sep=" ", end="\n", **k):
+    PRINTED.append((a, end))
+
+
+E.__dict__["print"] = _rec_print
+M.__dict__["print"] = _rec_print
+LLmod.__dict__["print"] = _rec_print
+
+
+def printed_text():
+    out = ""
+    for a, end in PRINTED:
+        out += " ".join(str(x) for x in a) + end
+    return out
+
+
+def stmts_of(program, dict_compress=True):
+    """Transpiled text of each top-level structure of a program, in order (transpile runs concretely)."""
+    tree = parse(tokenise(program))
+    return [T.transpile_ast([s], dict_compress=dict_compress) for s in tree]
+
+
+def depth_tuple(ctx):
+    return (len(ctx.context_values), len(ctx.inputs), len(ctx.stacks), len(ctx.function_stack))
